@@ -228,6 +228,7 @@ class Index:
         self.enclosing_fn = {}
         self._ctor_cache = {}
         self._census = None
+        self._defs_by = None
         for o in objs:
             self._walk(o, None)
         # out-of-line definitions: previousDecl chains
@@ -271,6 +272,17 @@ class Index:
             cls = n
         for c in kids(n):
             self._walk(c, cls)
+
+    def defs_by_owner_name(self):
+        """(owner class bare name, function name) -> definitions with a body anywhere in the dump, template patterns included"""
+        if self._defs_by is None:
+            self._defs_by = {}
+            for i, n in self.decl.items():
+                if n.get("kind") in FUNC_KINDS and has_body(n):
+                    own = self.cls_of.get(i)
+                    if own is not None and own.get("name"):
+                        self._defs_by.setdefault((own.get("name"), n.get("name")), []).append(n)
+        return self._defs_by
 
     def static_census(self):
         """every function-local static declared in a member function / constructor DEFINITION of the dump, template patterns
@@ -1555,6 +1567,20 @@ def describe_class(idx, an, disp, c):
                 continue
             seen.add(b["id"])
             meths.append((cls, b))
+    # public non-const members that NO unit instantiates (a member of a class template is instantiated only when used): their template
+    # PATTERN is still examined for assignments of members from the member's own parameters (a re-parameterising member nobody calls yet)
+    uninstantiated = []
+    for cls in [c] + bases:
+        for m in methods_of(idx, cls):
+            if m.get("kind") != "CXXMethodDecl" or idx.body(m["id"]) is not None or m.get("isImplicit") or (m.get("name") or "").startswith("operator"):
+                continue
+            if split_params(qt(m))[1] or m.get("storageClass") == "static" or (ACCESS.get(m["id"]) or "public") != "public":
+                continue
+            npar = len(split_params(qt(m))[0])
+            for pat in idx.defs_by_owner_name().get((cls.get("name"), m.get("name")), []):
+                if len(split_params(qt(pat))[0]) == npar and not split_params(qt(pat))[1]:
+                    uninstantiated.append((cls, m, pat))
+                    break
     reads = set()
     mdesc = []
     benign_statics = set()
@@ -1616,6 +1642,12 @@ def describe_class(idx, an, disp, c):
         base = "%s@%s" % (m["name"], m.get("line"))
         seen_uid[base] = seen_uid.get(base, 0) + 1
         m["uid"] = base if seen_uid[base] == 1 else "%s#%d" % (base, seen_uid[base])
+    for cls, m, pat in uninstantiated:
+        dw = sorted(x for x in an.definite_writes(pat) if x in fnames)
+        if dw:
+            pl, _ = split_params(qt(m))
+            mdesc.append({"name": m.get("name"), "sig": qt(m)[:160], "params": ",".join(norm(x) for x in pl), "cls": cls.get("name"), "mut_writes": dw, "definite_writes": dw,
+                          "access": "public", "const": False, "static": False, "reads": [], "writes": [], "line": None, "uid": "%s@pattern" % m.get("name"), "pattern": True})
     d["methods"] = mdesc
     d["reads"] = sorted(reads)
     # ---- constructors: what they do to state outside the object, and how each member gets its first value
@@ -1699,6 +1731,7 @@ def describe_class(idx, an, disp, c):
     d["benign_statics"] = sorted(benign_statics)
     d["param_members"] = param_members(idx, an, c, bases, fnames)
     d["init_kinds"] = init_kinds(idx, an, c, bases, fields, d["param_members"])
+    d["codependent"] = codependence(idx, an, c, bases, fields)
     # a member some constructor derives from its parameters (or that two constructors initialise differently) is parameter-derived
     d["param_members"] = sorted(set(d["param_members"]) | set(k for k, v in d["init_kinds"].items() if v == "param"))
     return d
@@ -1733,6 +1766,60 @@ def _init_value_text(nodes):
         if v is not None:
             return v
     return _expr_text(nodes)
+
+
+def codependence(idx, an, c, bases, fields):
+    """member -> members that some constructor derives from a COMMON constructor parameter (itself included).  A setter that rewrites a
+    member from its own parameter must also rewrite the members co-dependent with it; `setIndeter` (only _x comes from X) need not touch what
+    comes from the domain"""
+    fn = [f["name"] for f in fields]
+    src = {}          # member -> set of (constructor id, parameter id)
+    for cls in [c] + bases:
+        for m, kind in idx.ctors_of(cls):
+            b = idx.body(m["id"])
+            if kind == "pattern" or b is None or is_copy_param(idx, m, cls.get("name")):
+                continue
+            pids = [x["id"] for x in kids(b) if x.get("kind") == "ParmVarDecl"]
+            if not pids:
+                continue
+            own_mentions = {}
+            for ini in kids(b):
+                if ini.get("kind") == "CXXCtorInitializer" and "anyInit" in ini:
+                    nm = _FIELD_NAME.get(ini["anyInit"].get("id"), ini["anyInit"].get("name"))
+                    ps = set()
+                    def rec(x):
+                        if x.get("kind") == "DeclRefExpr" and x.get("referencedDecl", {}).get("kind") == "ParmVarDecl":
+                            ps.add(x["referencedDecl"].get("id"))
+                        if x.get("kind") == "MemberExpr" and kids(x) and kids(x)[0].get("kind") == "CXXThisExpr":
+                            own_mentions.setdefault(nm, set()).add(x.get("name"))
+                        for ch in kids(x):
+                            rec(ch)
+                    for x in kids(ini):
+                        rec(x)
+                    src.setdefault(nm, set()).update((b["id"], p) for p in ps)
+            for nm, others in own_mentions.items():
+                for o in others:
+                    src.setdefault(nm, set()).update(x for x in src.get(o, set()) if x[0] == b["id"])
+            if has_body(b):
+                for e in an.summary(b)["effects"]:
+                    if e["kind"] in ("own_write", "plain_write") and e.get("path"):
+                        src.setdefault(e["path"][0], set()).update((b["id"], p) for p in pids)
+    out = {}
+    for a in fn:
+        out[a] = sorted(x for x in fn if x == a or (src.get(a) and src.get(x) and src[a] & src[x]))
+    return out
+
+
+def _state_free(n):
+    """no call, no variable, no randomised temporary in the expression: its value is the same in every execution"""
+    k = n.get("kind")
+    if k in ("CallExpr", "CXXMemberCallExpr", "CXXOperatorCallExpr", "LambdaExpr", "CXXNewExpr", "CXXThisExpr"):
+        return False
+    if k == "DeclRefExpr" and n.get("referencedDecl", {}).get("kind") in ("VarDecl", "ParmVarDecl", "FieldDecl") and not is_const_lvalue_type(n.get("referencedDecl", {}).get("type", {}).get("qualType", "")):
+        return False
+    if k in ("CXXConstructExpr", "CXXTemporaryObjectExpr") and any(t in qt(n) for t in RANDOM_TYPES + ("Timer",)):
+        return False
+    return all(_state_free(c) for c in kids(n))
 
 
 def init_kinds(idx, an, c, bases, fields, dep):
@@ -1771,8 +1858,8 @@ def init_kinds(idx, an, c, bases, fields, dep):
                         sub = kids(ini)
                         if sub and sub[0].get("kind") == "CXXDefaultInitExpr":
                             got = nsdmi
-                        elif any(_mentions_any_param(x) for x in sub):
-                            got = "<param>"
+                        elif any(_mentions_any_param(x) for x in sub) or not all(_state_free(x) for x in sub):
+                            got = "<param>"          # (an initialiser that calls something or reads a variable is not a constant: `_g(GivRandom())` draws a clock seed)
                         else:
                             got = _init_value_text(sub)
                 if has_body(b) and any(e["kind"] in ("own_write", "plain_write") and e.get("path") and e["path"][0] == nm for e in an.summary(b)["effects"]):
@@ -2164,6 +2251,27 @@ class Mirror:
 
     MUTATOR_NAMES = re.compile(r"^(set[A-Z_].*|read|reset.*|reinit.*|init|resize|assign)$")
 
+    def setter_closure(self, m):
+        """the members co-dependent (through a common constructor parameter) with what the member writes from its own parameters"""
+        cd = self.d.get("codependent") or {}
+        out = set()
+        for x in m.get("definite_writes", []) or m.get("mut_writes", []):
+            out |= set(cd.get(x, [x]))
+        return out
+
+    def is_partial_setter(self, m):
+        """a public non-const member that rewrites SOME construction parameter from its own argument (Poly1Dom::setdomain, setIndeter): it must
+        rewrite everything co-dependent with what it sets; the other parameters legitimately stay"""
+        if m["const"] or m.get("static") or m.get("access", "public") != "public" or (m["name"] or "").startswith("operator"):
+            return False
+        if not any(x in (self.d.get("param_members") or []) for x in m.get("definite_writes", [])):
+            return False
+        return not set(self.reparam_core()) <= self.setter_closure(m)
+
+    def partial_setter_missing(self, m):
+        w = set(m.get("mut_writes", [])) | set(m.get("definite_writes", []))
+        return sorted(x for x in self.setter_closure(m) if x in (self.d.get("param_members") or []) and x not in w)
+
     def is_mutator(self, m):
         """public non-const member that re-parameterises the object in place: writes a parameter-derived member that operations read,
         and is named like a setter / reader (conversion members that merely touch containers through non-const accessors are not)"""
@@ -2171,8 +2279,8 @@ class Mirror:
             return False
         # by the AST: the member (whatever its name) definitely assigns a parameter-derived member that operations read; the NAME rule is kept
         # for setters whose writes go through calls the translator cannot see through (it needs a classified write as well)
-        by_ast = any(x in self.reparam_core() for x in m.get("definite_writes", []))
-        by_name = bool(self.MUTATOR_NAMES.match(m["name"] or "")) and any(x in self.reparam_core() for x in m.get("mut_writes", []))
+        by_ast = any(x in self.reparam_core() for x in m.get("definite_writes", [])) and not self.is_partial_setter(m)
+        by_name = bool(self.MUTATOR_NAMES.match(m["name"] or "")) and any(x in self.reparam_core() for x in m.get("mut_writes", [])) and not self.is_partial_setter(m)
         if not (by_ast or by_name):
             return False
         # a member inherited from a base cannot refresh what a derived class adds: reported as a note, not decided here
@@ -2366,6 +2474,7 @@ if __name__ == "__main__":
         print("   rf offenders:", [(mname(m), mi.eff[id(m)]) for m in mi.rf_offenders()])
         print("   randomised:", [mname(m) for m in d["methods"] if m["const"] and mi.randomized(m)])
         print("   param members:", d.get("param_members"), " mutators:", [(mname(m), m.get("mut_writes"), mi.mutator_missing(m)) for m in d["methods"] if mi.is_mutator(m)])
+        print("   partial setters:", [(mname(m), m.get("definite_writes"), mi.partial_setter_missing(m)) for m in d["methods"] if mi.is_partial_setter(m)])
         print("   args shared:", d.get("arg_shared"))
         print("   ctor effects:", mi.ctor_eff, " init kinds:", d.get("init_kinds"), " init offenders:", mi.init_offenders())
         print("   ctors:", [(x["cls"], x["params"][:60], [w["member"] for w in x["writes"]]) for x in d.get("ctors", [])], " unanalysed:", d.get("ctors_unanalysed"), " benign statics:", d.get("benign_statics"))
